@@ -63,6 +63,9 @@ IntBytes8(n) == IF n >= 0 THEN NatBytes(n, 4) \o <<0, 0, 0, 0>>
                 ELSE LET m == (n + 1073741824) + 1073741824 \* n + 2^31, n >= -2^31
                      IN LET lo == NatBytes(m, 4) IN <<lo[1], lo[2], lo[3], lo[4] + 128, 255, 255, 255, 255>>
 
+RECURSIVE ConcatAll(_)
+ConcatAll(ss) == IF ss = <<>> THEN <<>> ELSE Head(ss) \o ConcatAll(Tail(ss))
+
 (* ----------------------------- varints ---------------------------------- *)
 \* position of the first byte < 128 at or after pos, or 0
 RECURSIVE VarEnd(_, _)
